@@ -80,12 +80,17 @@ Definition seq_tensor (D : nat) (ms : list member) : member :=
 Definition seq_spec (D : nat) (ms : list member) (x : vec) : vec :=
   fold_left (fun y m => m_apply D m y) ms x.
 
-(* MultiLevelTransform.tensor() for linear members: mat = as_homogeneous_matrix(t0); mat += as_homogeneous_matrix(t) *)
-Definition ml_step (D : nat) (acc : mat) (m : member) : mat := gen_ml2 D FH (fst m) acc (snd m).
+(* MultiLevelTransform.tensor() for linear members:
+     mat = as_homogeneous_matrix(t0).clone(); mat = mat + as_homogeneous_matrix(t) for every further member;
+     if there is more than one member: mat = mat - (k - 1) * eye(D, D + 1) *)
+Definition msub (A B : mat) : mat := map (fun p => vsub (fst p) (snd p)) (combine A B).
+Definition ml_step (D : nat) (acc : mat) (m : member) : mat := madd acc (gen_matrix D (fst m) (snd m)).
 Definition ml_tensor (D : nat) (ms : list member) : mat :=
   match ms with
   | [] => hid D
-  | m :: r => fold_left (ml_step D) r (gen_matrix D (fst m) (snd m))
+  | [m] => gen_matrix D (fst m) (snd m)
+  | m :: r => msub (fold_left (ml_step D) r (gen_matrix D (fst m) (snd m)))
+                   (mscale (of_Z (Z.of_nat (length r))) (hid D))
   end.
 (* MultiLevelTransform.forward(), generic branch: u = 0; for each member: y = member(x); u += y - x; result x + u.
    ys are the points the members map x to. *)
